@@ -380,8 +380,11 @@ def run_check(prop, tier):
         "property_id": prop,
         "tier": tier,
         "seed": seed,
-        "level": "proof",
+        # when some obligation is not discharged on this run the claim is downgraded (the run then reports a violation)
+        "level": "proof" if (discharged and not undischarged) else "other",
         "coverage": {
+            "explanation": ("all %d proof obligations discharged" % len(obligations)) if not undischarged else
+                           ("%d of %d proof obligations NOT discharged on this run (broken tie, build failure or audit failure): %s" % (len(undischarged), len(obligations), undischarged[:10])),
             "obligations": len(obligations),
             "discharged": len(discharged),
             "checker_cmd": "python3 tools/gen_tables.py && (cd lean && lake build driver " + " ".join("MelModel.Props." + m for m in cfg["modules"]) + ")",
